@@ -658,6 +658,8 @@ func registerRuntime(m map[string]modelFn) {
 		rt := rp.Type("rtype").Object().Type()
 		return Iface{T: rt, V: zero(rt)}
 	}
+	m["(internal/reflectlite.rtype).Comparable"] = func(fr *frame, a []Value) Value { return smt.True }
+	m["(internal/reflectlite.rtype).String"] = func(fr *frame, a []Value) Value { return mkStr("T") }
 	m["(internal/reflectlite.rtype).Elem"] = func(fr *frame, a []Value) Value {
 		rp := fr.e.Prog.ImportedPackage("internal/reflectlite")
 		rt := rp.Type("rtype").Object().Type()
